@@ -2107,3 +2107,25 @@ Theorem json_print_std_proof sch t jk f :
 Proof.
   intros Ht Hp HC HD. rewrite (json_print_all_doc sch t jk utf8_nonul f Ht Hp HC HD). apply json_doc_std_proof; assumption.
 Qed.
+
+Lemma JDocN_prune sch t jk (SV : bytes -> Prop) (sel : dnode -> bool) n :
+  JDocN sch t jk SV n -> JDocN sch t jk SV (prune_node sel n).
+Proof.
+  induction n as [s v d m ch IH] using dnode_ind'. intro HD.
+  rewrite JDocN_unfold in HD. destruct HD as (Hany & Hval & Hmeta & Hnd & HDch).
+  cbn [prune_node]. rewrite JDocN_unfold. repeat split; try assumption.
+  induction ch as [|c ch IHc]; [constructor|]. inversion IH as [|? ? Hc Hr]; subst.
+  inversion HDch as [|? ? Dc Dr]; subst. cbn [flat_map]. destruct (sel c); cbn [app]; [constructor; [apply Hc, Dc|]|]; apply IHc; assumption.
+Qed.
+
+(* the rendering of the selected part of a forest is read back as the selected part *)
+Theorem json_doc_roundtrip_sel_proof sch t jk (sel : dnode -> bool) f :
+  tabs_okb sch t = true -> Canon sch f -> Forall (JDocN sch t jk SV_ly) f ->
+  json_parse sch t jk (json_doc sch t jk (prune sel f)) = Some (clear_dflt (prune sel f)).
+Proof.
+  intros Ht HC HD. unfold json_parse.
+  assert (HP' : Forall (Placed sch None) (prune sel f)) by (apply Forall_prune; [intro n; apply Placed_prune|apply Canon_Placed, HC]).
+  assert (HD' : Forall (JDocN sch t jk SV_ly) (prune sel f)) by (apply Forall_prune; [intro n; apply JDocN_prune|exact HD]).
+  rewrite (jv_text_doc sch t jk SV_ly Ht SV_ly_key ly_rdstr (prune sel f) ly_rdstr_ok HP' HD').
+  rewrite (conv_tree sch t jk SV_ly Ht (prune sel f) HP' HD'). reflexivity.
+Qed.
